@@ -140,6 +140,7 @@ Definition ck_config (secure : bool) (samesite prefix : bytes) (ingresses : list
      cf_rl_enabled := rl; cf_rl_logins := logins; cf_rl_window := window;
      cf_seg_prefix := seg_prefix; cf_rl_ceil := rl_ceil |}.
 
+Definition ck_fault (status : Z) (cause : fcause) : cfault := fault_of_cause status cause.
 Definition ck_origin (https : bool) (host path : bytes) : origin := {| u_https := https; u_host := host; u_path := path |}.
 Definition ck_breq (ep : kendpoint) (path : bytes) (prompt : bool) : breq := {| q_ep := ep; q_path := path; q_prompt := prompt |}.
 Definition ck_setcookie (name : bytes) (v : cvalue) (domain path : bytes) (secure : bool) (maxage : Z) (epoch : bool) : setcookie :=
